@@ -35,6 +35,7 @@ def run_wire(ctx, scenarios, name, par=16, slow=False, timeout=1200):
         raise vlib.MachineryError("wire driver failed rc=%s: %s" % (r.returncode, (r.stderr or r.stdout)[-2000:]))
     stats = json.loads(r.stdout.strip().splitlines()[-1])
     index = json.load(open(ip))
+    vlib.log("[wire] %s: %d scenarios, %d events" % (name, stats["scenarios"], stats["events"]))
     fatal = [e for e in index if e.get("fatal")]
     if fatal:
         raise vlib.MachineryError("wire driver: %d scenarios could not be executed: %s" % (len(fatal), fatal[0]["fatal"]))
@@ -161,7 +162,11 @@ def _validate_part(ctx, todo, lines, by_id, name, module, invariants, max_reject
             nvalid += len(todo)
             todo = []
             break
-        if hwm is None:
+        if "Invariant" in (res.violation or "") and hwm is not None:
+            # the state reached after consuming line hwm-1 violates an invariant of the specification
+            hwm = hwm - 1
+            why = "after this event " + (res.violation or "").splitlines()[0]
+        elif hwm is None:
             m = re.findall(r"/\\ l = (\d+)", "\n".join(res.tail))
             hwm = int(m[-1]) - 1 if m else None
             why = "invariant: " + (res.violation or "")[:300]
@@ -196,7 +201,11 @@ def single(ctx, scenario, name, module="TraceBroker", invariants=("IdsDistinct",
     lines = open(tp).read().splitlines()
     info = {"trace": lines, "line": hwm}
     if not acc:
-        if hwm is None:
+        if "Invariant" in (res.violation or "") and hwm is not None:
+            hwm = hwm - 1
+            info["line"] = hwm
+            info["why"] = "after this event " + (res.violation or "").splitlines()[0]
+        elif hwm is None:
             m = re.findall(r"/\\ l = (\d+)", "\n".join(res.tail))
             hwm = int(m[-1]) - 1 if m else len(lines)
             info["line"] = hwm
@@ -204,7 +213,7 @@ def single(ctx, scenario, name, module="TraceBroker", invariants=("IdsDistinct",
         else:
             info["why"] = "no action of the specification explains this event"
         info["event"] = lines[hwm - 1] if 0 < hwm <= len(lines) else None
-        info["state"] = state_at(ctx, tp, hwm, module=module, deviation=deviation)
+        info["state"] = state_at(ctx, tp, hwm + (1 if "Invariant" in (res.violation or "") else 0), module=module, deviation=deviation)
         info["tp"] = tp
     return acc, info
 
